@@ -189,12 +189,21 @@ fn check(c: &Case, ctx: &Ctx) -> Outcome {
     let one_step = c.one_step && k == 17;
     // names given in a file list are labels: any text without white space (isolate numbers written `#1`, lane ids
     // such as `6925_3#2`); names derived from file paths (the one-step route) stay as they are
-    let disp: Vec<String> = m.samples.iter().enumerate().map(|(j, (n, _))| if one_step { n.clone() } else if j == 1 { format!("#{n}") } else if j == 3 { format!("6925_{n}#2") } else { n.clone() }).collect();
+    // one-step route, every other case with >= 3 samples: the last two files are two assemblers' outputs of the same
+    // name in different directories (runA/contigs.fa, runB/contigs.fa); both samples are then called `contigs`
+    let same_base = one_step && m.samples.len() >= 3 && (m.samples.len() + m.sites.len()) % 2 == 0;
+    let ns = m.samples.len();
+    let disp: Vec<String> = m.samples.iter().enumerate().map(|(j, (n, _))| if same_base && j + 2 >= ns { "contigs".to_string() } else if one_step { n.clone() } else if j == 0 && k % 4 != 3 { ["sample", "name", "Sample"][(k / 4 + m.samples.len()) % 3].to_string() } else if j == 1 { format!("#{n}") } else if j == 3 { format!("6925_{n}#2") } else { n.clone() }).collect();
     let r: Result<(), Outcome> = (|| {
         let o = if one_step {
             let mut args: Vec<String> = vec!["align".into(), "--min-freq".into(), "1".into()];
             for (si, (n, recs)) in m.samples.iter().enumerate() {
-                let f = format!("{n}.fa");
+                let f = if same_base && si + 2 >= ns {
+                    std::fs::create_dir_all(dir.join(format!("run{si}"))).unwrap();
+                    format!("run{si}/contigs.fa")
+                } else {
+                    format!("{n}.fa")
+                };
                 cli::write_fasta_auto(&dir.join(&f), recs, width_of(c, si));
                 args.push(f);
             }
